@@ -255,19 +255,26 @@ Proof.
   rewrite Forall_forall in A. auto.
 Qed.
 
-Lemma wf_variant : forall s o v, wf s -> In (o, v) (variants s) -> ref_ok (size s) o /\ ref_ok (size s) v.
+Lemma wf_variant : forall s o v, wf s -> In (o, v) (variants s) ->
+  ref_ok (size s) o /\ ref_ok (size s) v /\ o < v.
 Proof.
-  unfold wf. intros s o v [_ B] H. rewrite Forall_forall in B. apply (B (o, v)). auto.
+  unfold wf. intros s o v [_ [B _]] H. rewrite Forall_forall in B. apply (B (o, v)). auto.
+Qed.
+
+Lemma var_ok_mono : forall n m p, n <= m -> var_ok n p -> var_ok m p.
+Proof.
+  unfold var_ok. intros n m p L [A [B C]].
+  split; [eapply ref_ok_mono; eauto | split; [eapply ref_ok_mono; eauto | auto]].
 Qed.
 
 Lemma wf_alloc : forall s r, wf s -> cls_ok (size s) r -> wf (fst (alloc s r)).
 Proof.
-  intros s r [A B] H. unfold wf. rewrite size_alloc. split.
+  intros s r [A [B C]] H. unfold wf. rewrite size_alloc. split; [| split].
   - unfold alloc. simpl. apply Forall_app. split.
     + eapply Forall_impl; [| apply A]. intros. eapply cls_ok_mono; [| eauto]. lia.
     + constructor; auto. eapply cls_ok_mono; [| eauto]. lia.
-  - unfold alloc. simpl. eapply Forall_impl; [| apply B]. simpl. intros a [? ?].
-    split; eapply ref_ok_mono; eauto; lia.
+  - unfold alloc. simpl. eapply Forall_impl; [| apply B]. intros. eapply var_ok_mono; [| eauto]. lia.
+  - unfold alloc. simpl. auto.
 Qed.
 
 Lemma Forall_list_upd : forall (A : Type) (P : A -> Prop) l n f,
@@ -279,15 +286,28 @@ Qed.
 Lemma wf_upd : forall s c f,
   wf s -> (forall r, cls_ok (size s) r -> cls_ok (size s) (f r)) -> wf (upd s c f).
 Proof.
-  intros s c f [A B] H. unfold wf. rewrite size_upd. rewrite variants_upd. split; auto.
+  intros s c f [A [B C]] H. unfold wf. rewrite size_upd. rewrite variants_upd.
+  split; [| split; auto].
   unfold upd. destruct (c <? 0); auto. simpl. apply Forall_list_upd; auto.
 Qed.
 
-Lemma wf_add_variant : forall s root v,
-  wf s -> ref_ok (size s) root -> ref_ok (size s) v -> wf (add_variant s root v).
+Lemma NoDup_snoc : forall (A : Type) (l : list A) x, NoDup l -> ~ In x l -> NoDup (l ++ [x]).
 Proof.
-  intros s root v [A B] H1 H2. unfold wf, add_variant, size in *. simpl. split; auto.
-  apply Forall_app. split; auto.
+  induction l; simpl; intros x ND H.
+  - constructor; auto.
+  - inversion ND; subst. constructor.
+    + rewrite in_app_iff. simpl. intros [X | [X | []]]; auto.
+    + apply IHl; auto.
+Qed.
+
+Lemma wf_add_variant : forall s root v,
+  wf s -> ref_ok (size s) root -> ref_ok (size s) v -> root < v ->
+  ~ In v (map snd (variants s)) -> wf (add_variant s root v).
+Proof.
+  intros s root v [A [B C]] H1 H2 H3 H4. unfold wf, add_variant, size in *. simpl.
+  split; [auto | split].
+  - apply Forall_app. split; auto. constructor; auto. unfold var_ok. simpl. auto.
+  - rewrite map_app. simpl. apply NoDup_snoc; auto.
 Qed.
 
 Lemma wf_set_dca : forall s c d, wf s -> wf (set_dca s c d).
@@ -397,12 +417,35 @@ Proof.
   - apply nodupb_NoDup. auto.
 Qed.
 
+Lemma zmemb_In : forall x l, zmemb x l = true <-> In x l.
+Proof.
+  induction l; simpl; split; intros H; try discriminate; try contradiction.
+  - apply orb_true_iff in H. destruct H as [H | H].
+    + apply Z.eqb_eq in H. auto.
+    + right. apply IHl. auto.
+  - apply orb_true_iff. destruct H as [H | H].
+    + subst. left. apply Z.eqb_refl.
+    + right. apply IHl. auto.
+Qed.
+
+Lemma znodupb_NoDup : forall l, znodupb l = true -> NoDup l.
+Proof.
+  induction l; simpl; intros H.
+  - constructor.
+  - apply andb_true_iff in H. destruct H as [H1 H2]. constructor; auto.
+    intros X. apply zmemb_In in X. rewrite X in H1. discriminate.
+Qed.
+
 Lemma wfb_wf : forall s, wfb s = true -> wf s.
 Proof.
-  unfold wfb, wf. intros s H. apply andb_true_iff in H. destruct H as [A B].
-  rewrite forallb_forall in A, B. split; apply Forall_forall; intros.
-  - apply cls_okb_ok. auto.
-  - apply B in H. apply andb_true_iff in H. destruct H. split; apply ref_okb_ok; auto.
+  unfold wfb, wf. intros s H. apply andb_true_iff in H. destruct H as [H C].
+  apply andb_true_iff in H. destruct H as [A B].
+  rewrite forallb_forall in A, B. split; [| split].
+  - apply Forall_forall; intros. apply cls_okb_ok. auto.
+  - apply Forall_forall; intros. apply B in H. apply andb_true_iff in H. destruct H as [H H3].
+    apply andb_true_iff in H. destruct H as [H1 H2]. unfold var_ok.
+    split; [apply ref_okb_ok; auto | split; [apply ref_okb_ok; auto | apply Z.ltb_lt; auto]].
+  - apply znodupb_NoDup. auto.
 Qed.
 
 Lemma pair_mem_In : forall o x l, pair_mem o x l = true -> In (o, x) l.
